@@ -111,6 +111,8 @@ def replay(run, prop, tier, fam="json", pyops_tier=None, want=None, ops_filter=N
                         vs = range(nv) if tier == "thorough" else [rnd.randrange(nv)]
                         for v in vs:
                             jobs.append((position, e, v, False, wc))
+                            if seq.synced_operand_possible(e) and (tier == "thorough" or rnd.random() < 0.6):
+                                jobs.append((position, e, 100 + v, False, wc))
                         if position == "root" and val.canon(e["pre"]) in (val.EMPTY_D, val.EMPTY_L):
                             jobs.append((position, e, 0, True, wc))
                     if sample is not None and len(jobs) > sample:
